@@ -117,6 +117,14 @@ type T struct {
 	nloops     int
 	trustLocal map[string]bool
 	loopDepth  int
+
+	fnType      *ast.FuncType  // signature the translated statements return to (function, closure, or closure around a slice)
+	fnBody      *ast.BlockStmt // body in which statements / slices are looked up
+	fnRecv      *ast.FieldList
+	assignEmits map[string]*Emit
+	maps        map[string]*MapSpec
+	hoisted     map[ast.Expr][2]string // oracle calls inside a condition, already bound to a name
+	allowEmit   bool                   // a call with an `emit` is being translated as a whole right-hand side
 }
 
 // globalIgnore: call statements ignored in every target.  verifPoint(kind, args...) is the observation hook of
@@ -268,6 +276,28 @@ func (t *T) translate() (defs []*Def, err error) {
 		t.stopf(t.fd, "function without body")
 	}
 	tg := t.tg
+	t.fnType, t.fnBody, t.fnRecv = t.fd.Type, t.fd.Body, t.fd.Recv
+	if tg.Closure != nil {
+		var lits []*ast.FuncLit
+		ast.Inspect(t.fd.Body, func(n ast.Node) bool {
+			if fl, ok := n.(*ast.FuncLit); ok {
+				lits = append(lits, fl)
+			}
+			return true
+		})
+		if *tg.Closure < 0 || *tg.Closure >= len(lits) {
+			t.stopf(t.fd, "closure %d: the function has %d function literals", *tg.Closure, len(lits))
+		}
+		fl := lits[*tg.Closure]
+		t.fnType, t.fnBody, t.fnRecv = fl.Type, fl.Body, nil
+	}
+	t.assignEmits, t.maps, t.hoisted = map[string]*Emit{}, map[string]*MapSpec{}, map[ast.Expr][2]string{}
+	for _, m := range tg.AssignEmits {
+		t.assignEmits[m.Go] = m
+	}
+	for _, m := range tg.Maps {
+		t.maps[m.Type] = m
+	}
 	for _, a := range tg.Atoms {
 		if a.Prefix {
 			t.prefixAtoms = append(t.prefixAtoms, a)
@@ -320,12 +350,12 @@ func (t *T) translate() (defs []*Def, err error) {
 		t.sig = append(t.sig, &sigSlot{name: s.Name, gty: lt, kind: 0, idx: len(t.stNames) - 1})
 	}
 	e.st = append([]string{}, t.stNames...)
-	if len(tg.Emits) > 0 {
+	if tg.ActionType != "" {
 		e.acts = "[]"
 	}
 
 	// which statements
-	stmts := t.fd.Body.List
+	stmts := t.fnBody.List
 	var sliceStart, sliceEnd token.Pos
 	if tg.Slice != nil {
 		t.slice = true
@@ -334,9 +364,9 @@ func (t *T) translate() (defs []*Def, err error) {
 	}
 
 	// Go results
-	if t.fd.Type.Results != nil {
+	if t.fnType.Results != nil {
 		idx := 0
-		for _, f := range t.fd.Type.Results.List {
+		for _, f := range t.fnType.Results.List {
 			n := len(f.Names)
 			if n == 0 {
 				n = 1
@@ -385,15 +415,15 @@ func (t *T) translate() (defs []*Def, err error) {
 		t.sig = append(t.sig, &sigSlot{name: name, gty: g, kind: 1, obj: o})
 	}
 	if !t.slice {
-		if t.fd.Recv != nil && len(t.fd.Recv.List) == 1 && len(t.fd.Recv.List[0].Names) == 1 {
-			id := t.fd.Recv.List[0].Names[0]
+		if t.fnRecv != nil && len(t.fnRecv.List) == 1 && len(t.fnRecv.List[0].Names) == 1 {
+			id := t.fnRecv.List[0].Names[0]
 			if _, isState := t.stIndex[id.Name]; !isState && id.Name != "_" {
 				if _, isAtom := t.atoms[id.Name]; !isAtom {
 					addVar(t.p.Info.Defs[id], id.Name, id)
 				}
 			}
 		}
-		for _, f := range t.fd.Type.Params.List {
+		for _, f := range t.fnType.Params.List {
 			for _, id := range f.Names {
 				if id.Name == "_" {
 					continue
@@ -562,14 +592,18 @@ func (t *T) findSlice() []ast.Stmt {
 	sl := t.tg.Slice
 	count := 0
 	var found []ast.Stmt
-	var visit func(list []ast.Stmt)
-	visit = func(list []ast.Stmt) {
+	var visit func(list []ast.Stmt, lit *ast.FuncLit)
+	visit = func(list []ast.Stmt, lit *ast.FuncLit) {
 		for i, s := range list {
 			if found != nil {
 				return
 			}
 			if stmtHead(s) == sl.First {
 				if count == sl.Occurrence {
+					if lit != nil {
+						// the slice lives in a function literal: its returns are the literal's
+						t.fnType = lit.Type
+					}
 					if sl.Last == "" {
 						found = list[i : i+1]
 						return
@@ -585,15 +619,36 @@ func (t *T) findSlice() []ast.Stmt {
 				count++
 			}
 			for _, sub := range subBlocks(s) {
-				visit(sub)
+				visit(sub, lit)
+			}
+			for _, fl := range funcLitsOf(s) {
+				visit(fl.Body.List, fl)
 			}
 		}
 	}
-	visit(t.fd.Body.List)
+	visit(t.fnBody.List, nil)
 	if found == nil {
 		t.stopf(t.fd, "slice: no statement with head %q (occurrence %d) in %s", sl.First, sl.Occurrence, t.tg.Func)
 	}
 	return found
+}
+
+// funcLitsOf: function literals in the expressions of a simple statement (not inside nested statements).
+func funcLitsOf(s ast.Stmt) []*ast.FuncLit {
+	switch s.(type) {
+	case *ast.AssignStmt, *ast.ExprStmt, *ast.ReturnStmt, *ast.DeferStmt, *ast.GoStmt, *ast.DeclStmt, *ast.SendStmt:
+	default:
+		return nil
+	}
+	var out []*ast.FuncLit
+	ast.Inspect(s, func(n ast.Node) bool {
+		if fl, ok := n.(*ast.FuncLit); ok {
+			out = append(out, fl)
+			return false
+		}
+		return true
+	})
+	return out
 }
 
 func subBlocks(s ast.Stmt) [][]ast.Stmt {
